@@ -3,6 +3,7 @@
 -/
 import PyProb.Driver.Parse
 import PyProb.Model.Hashes
+import PyProb.Model.Digest
 import PyProb.Model.Bitarray
 import PyProb.Model.Sizing
 import PyProb.Model.Bloom
@@ -40,6 +41,8 @@ inductive Strat
 def parseStrat (s : String) : Option Strat :=
   match s.splitOn ":" with
   | ["fnv"] => some .fnv
+  | ["md5"] => some (.dbytes fun b _ => md5 b)
+  | ["sha256"] => some (.dbytes fun b _ => sha256 b)
   | ["ext"] => some .ext
   | ["dint", n] => (innerInt n).map .dint
   | ["dbytes", n] => (innerBytes n).map .dbytes
